@@ -11,10 +11,13 @@ VARIABLE hist
 SetSeq(S) == SetToSeq(S)
 GenInit == \/ \E ver \in FortVers, art \in {"lock", "def"} :
                 /\ InitWith(FortCfg(ver, art))
-                /\ hist = <<[ev |-> "Cfg", src |-> "fort", art |-> art, ver |-> VerNames[ver + 1], n |-> 0, t |-> 0]>>
+                /\ hist = <<[ev |-> "Cfg", src |-> "fort", art |-> art, ver |-> VerNames[ver + 1], n |-> 0, t |-> 0, flaw |-> "none"]>>
+           \/ \E ver \in FortVers, art \in {"lock", "def"}, f \in Flaws :
+                /\ FlawApplies(f, ver, art) /\ InitWith(FlawedCfg(ver, art, f))
+                /\ hist = <<[ev |-> "Cfg", src |-> "fort", art |-> art, ver |-> VerNames[ver + 1], n |-> 0, t |-> 0, flaw |-> f]>>
            \/ \E n \in 3..MaxN : \E t \in {0} \cup 2..n :
                 /\ InitWith(CreateCfg(n, t, <<>>, FALSE))
-                /\ hist = <<[ev |-> "Cfg", src |-> "create", art |-> "lock", ver |-> VerNames[Latest + 1], n |-> n, t |-> t]>>
+                /\ hist = <<[ev |-> "Cfg", src |-> "create", art |-> "lock", ver |-> VerNames[Latest + 1], n |-> n, t |-> t, flaw |-> "none"]>>
 Fresh == phase = "verified" /\ cur.state = "pristine" /\ obs.kind = "none"
 SibOf(r) == IF r.sib \in {"", "self"} THEN "" ELSE FullPath([r EXCEPT !.p = r.sib], cfg.art)
 Sels(r) == IF r.sib = "self" THEN {"first", "last"} ELSE {"first"}
@@ -26,6 +29,7 @@ GenNext ==
   \/ Create /\ hist' = Append(hist, [ev |-> "Create"])
   \/ Load(CanonView(cfg)) /\ hist' = Append(hist, [ev |-> "Load", node |-> 0])
   \/ Verify /\ hist' = Append(hist, [ev |-> "Verify"])
+  \/ VerifyFlawed /\ verdict = "none" /\ hist' = Append(hist, [ev |-> "Verify"])
   \/ /\ Fresh
      /\ \/ \E r \in Rows : \E kind \in KindsOf(r) \ {"ver"} : \E sel \in Sels(r) :
              /\ Tamper(FullPath(r, cfg.art), kind, TRUE)
@@ -43,5 +47,6 @@ GenNext ==
         \/ \E i \in 1..cfg.n : Deposits(i, CanonFiles(cfg)) /\ hist' = Append(hist, [ev |-> "Deposits", node |-> i - 1])
         \/ \E S \in CombineSets : Combine(S) /\ hist' = Append(hist, [ev |-> "Combine", nodes |-> SetSeq({i - 1 : i \in S})])
 GenSpec == GenInit /\ [][GenNext]_<<vars, hist>>
-Emit == Fresh \/ phase # "verified" \/ PrintT("@@SCHED@@" \o ToJson(hist))
+Emit == IF cfg.flaw = "none" THEN Fresh \/ phase # "verified" \/ PrintT("@@SCHED@@" \o ToJson(hist))
+        ELSE verdict # "detected" \/ PrintT("@@SCHED@@" \o ToJson(hist))
 ====
